@@ -151,6 +151,8 @@ var matchAlphabet = []matchAlt{
 	{Name: "uri-prefix-root+qp", Core: true, Entries: []matchSpec{{URI: prefix("/"), QueryParams: h("q", exact("1"))}}},
 	{Name: "uri-regex-any+hdr", Entries: []matchSpec{{URI: regex(".*"), Headers: h(hdr, present())}}},
 	{Name: "port-80+uri-prefix-root-icase", Entries: []matchSpec{{Port: 80, URI: prefix("/"), IgnoreURICase: true}}},
+	// "Note: The keys uri, scheme, method, and authority will be ignored." (headers)
+	{Name: "hdr-reserved-key-method", Entries: []matchSpec{{Headers: h("method", exact("GET"))}}},
 }
 
 // ---- actions --------------------------------------------------------------------------------
@@ -486,6 +488,11 @@ var (
 
 func sp(s string) *string { return &s }
 
+// reservedHeaderKey: "The keys uri, scheme, method, and authority will be ignored" in `headers`.
+func reservedHeaderKey(k string) bool {
+	return k == "uri" || k == "scheme" || k == "method" || k == "authority"
+}
+
 // uses reports which request dimensions the rules of a case mention.
 type uses struct{ uri, hdr, hdr2, query, method bool }
 
@@ -498,9 +505,12 @@ func (c caseSpec) uses() uses {
 					u.uri = true
 				}
 				for k := range m.Headers {
-					if k == hdr {
+					switch {
+					case reservedHeaderKey(k):
+						u.method = true
+					case k == hdr:
 						u.hdr = true
-					} else {
+					default:
 						u.hdr2 = true
 					}
 				}
